@@ -8,6 +8,7 @@ From SU.Model Require Import Midi.
 From SU.Spec Require Import MidiSpec.
 From SU.Proofs Require Import MidiProofs.
 From SU.Proofs Require Import MidiExtraProofs.
+From SU.Proofs Require Import MidiIgnoredProofs.
 Open Scope Z_scope.
 
 (** the held-note list of the receiver is the list of outstanding note-ons, for every
@@ -91,6 +92,13 @@ Theorem C04_example_within_capacity :
      OMsg (MNoteOn 2 30 99)].
 Proof. exact C04_example_within_capacity. Qed.
 
+(** non-vacuity of C04_note_selected with later messages: the note is kept after everything is released *)
+Theorem C04_ex_note_kept_after_release :
+  selected PLast [60]
+    (r_note (mrun 0 [OMsg (MNoteOn 0 60 100); OMsg (MNoteOn 0 64 90);
+                     OMsg (MNoteOff 0 64 0); OMsg (MNoteOff 0 60 0)])).
+Proof. exact ex_note_kept_after_release_long_selected. Qed.
+
 Print Assumptions C04_held.
 Print Assumptions C04_gate.
 Print Assumptions C04_note.
@@ -101,3 +109,4 @@ Print Assumptions C04_selected_unique.
 Print Assumptions C04_note_after_note_msg.
 Print Assumptions C04_note_selected.
 Print Assumptions C04_example_within_capacity.
+Print Assumptions C04_ex_note_kept_after_release.
